@@ -658,6 +658,15 @@ class CallMixin:
                     return True
                 return None
             return None
+        if v.op == "Input" and v.extra:
+            kind = v.extra.get("kind")
+            if kind == "array" and (tq in BT or t.op == "Class"):
+                return False
+            if kind == "int" and tq in BT:
+                return BT[tq] is int
+            if kind == "float" and tq in BT:
+                return BT[tq] is float
+            return None
         if v.op in ("BinOp", "Compare", "Subscript", "Scatter") or \
                 (v.op == "Call" and v.extra and v.extra.get("cat") in ("ufunc", "alloc", "alloc-like", "rng")):
             if tq in ("builtins.int", "builtins.str", "builtins.tuple", "builtins.list",
